@@ -222,6 +222,9 @@ def make_case(rng):
             # re-announces the anticipated instruments of a later frame at that frame's first period, so only anticipated swaps
             # before the first break point are an inversion of the ordinary simulation
             window = (0, breaks[0])
+            if rng.random() < 0.4:
+                # ... or the unanticipated swap sits in the very first period: a single frame that holds both kinds of swaps
+                breaks, window = [0], (0, T)
             ncell = max(ncell, len(breaks) + 1)
     for ci in range(ncell):
         kind = mode if mode != "mixed" else ("unanticipated" if ci < len(breaks) else "anticipated")
